@@ -97,7 +97,7 @@ func (e *Env) resolveType(name string) (Sort, types.Type) {
 		return SString, types.Typ[types.String]
 	case "real", "float64":
 		return SReal, types.Typ[types.Float64]
-	case "iface", "any", "error":
+	case "iface", "any", "error", "interface{}":
 		return SIface, types.NewInterfaceType(nil, nil)
 	case "intset":
 		return ArraySort(SInt, SBool), nil
@@ -590,6 +590,14 @@ func (e *Env) trCall(x *ECall) TV {
 		cls := "Enc." + x.Fn[3:]
 		arr := e.u.heapGet(e.st, cls, ArraySort(SInt, ArraySort(SInt, SInt)))
 		return TV{T: Select(Select(arr, App("s_arr", SInt, b.T)), App("+", SInt, App("s_off", SInt, b.T), argOf(1).T)), Ty: intT}
+	case "allocated": // allocated(x): the reference exists at this program point (it is not above the allocation frontier)
+		need(1)
+		a := argOf(0)
+		top := e.u.topOf(e.st)
+		if a.T.Sort == SSlice {
+			return TV{T: App("<=", SBool, App("s_arr", SInt, a.T), top), Ty: boolT}
+		}
+		return TV{T: App("<=", SBool, a.T, top), Ty: boolT}
 	case "foreign": // foreign(x): the reference was not allocated by the unit under verification (fresh or pre-existing elsewhere)
 		need(1)
 		a := argOf(0)
